@@ -7,6 +7,7 @@ import (
 	"context"
 	"errors"
 	"fmt"
+	"github.com/gogo/protobuf/proto"
 
 	abci "github.com/tendermint/tendermint/abci/types"
 	"github.com/tendermint/tendermint/config"
@@ -344,3 +345,51 @@ func VP_C14_Sync_b1() { vpC14Sync(1) }
 func VP_C14_Sync_b2() { vpC14Sync(2) }
 func VP_C14_Sync_b3() { vpC14Sync(3) }
 func VP_C14_Sync_b4() { vpC14Sync(4) }
+
+// ---------------------------------------------------------------- C17-H2 (state sync reactor): a hostile message never wedges the node
+
+// A message that fails validation reaches the real Reactor.ReceiveEnvelope while the node starts or
+// finishes a state sync (Reactor.Sync takes the reactor's lock for writing); the switch's reaction to
+// the invalid message is to stop the peer, which calls back into the reactor's RemovePeer.  Under every
+// interleaving (pre-emption at lock operations) both activities finish: the peer is dropped, nothing
+// is left waiting for a lock.
+func VP_C17_StateSyncHostileMessage() {
+	vp.Opt("preempt", 3)
+	w := &vpC14{peers: map[p2p.ID]*vpPeer{}, arrived: map[uint32]vpArrival{}, refetchWanted: map[uint32]bool{}, advertisers: map[string][]p2p.ID{}, rejectedFormats: map[uint32]bool{}, rejectedSenders: map[p2p.ID]bool{}}
+	cfg := *config.DefaultStateSyncConfig()
+	cfg.ChunkFetchers = 1
+	r := NewReactor(cfg, w, w, vp.TempDir())
+	r.SetLogger(log.NewNopLogger())
+	hostile := &vpPeer{id: "hostile", w: w}
+	stopped := 0
+	vp.Stub("(*github.com/tendermint/tendermint/libs/service.BaseService).IsRunning", func() bool { return true })
+	// what p2p.Switch.StopPeerForError does as far as this reactor is concerned
+	vp.Stub("(*github.com/tendermint/tendermint/p2p.Switch).StopPeerForError", func(sw *p2p.Switch, peer p2p.Peer, reason interface{}) {
+		stopped++
+		r.RemovePeer(peer, reason)
+	})
+	vp.Stub("(*github.com/tendermint/tendermint/p2p.Switch).BroadcastEnvelope", func(sw *p2p.Switch, e p2p.Envelope) chan bool { return nil })
+	var msg proto.Message
+	ch := byte(ChunkChannel)
+	switch vp.Choice("invalid-message", 3) {
+	case 0:
+		msg = &ssproto.ChunkResponse{Height: 0, Format: 1, Index: 0, Chunk: []byte{1}}
+	case 1:
+		msg, ch = &ssproto.SnapshotsResponse{Height: 5, Format: 1, Chunks: 0, Hash: []byte{1}}, SnapshotChannel
+	case 2:
+		msg, ch = &ssproto.SnapshotsResponse{Height: 5, Format: 1, Chunks: 2, Hash: nil}, SnapshotChannel
+	}
+	done := make(chan int, 2)
+	go func() {
+		defer func() { recover(); done <- 1 }()
+		r.ReceiveEnvelope(p2p.Envelope{Src: hostile, ChannelID: ch, Message: msg})
+	}()
+	go func() {
+		r.Sync(&vpProvider{w}, 0) //nolint
+		done <- 2
+	}()
+	vp.Settle()
+	vp.Assert(len(done) == 2, "C17.reactor.statesync-hostile-message-never-leaves-the-node-waiting-for-a-lock")
+	vp.Assert(stopped == 1, "C17.reactor.statesync-invalid-message-drops-the-peer")
+	vp.Reach("both-finished")
+}
